@@ -205,7 +205,7 @@ def run(chk):
         cols.append(('b2', {'base': 'boolean', 'format': boolsp2} if boolsp2 else 'boolean'))
         tv, fv = (boolsp.split('|') if boolsp else ('true', 'false'))
         tv2, fv2 = (boolsp2.split('|') if boolsp2 else ('true', 'false'))
-        strs = ['plain', 'café', 'x y', '12']
+        strs = ['plain', 'café', 'x y \x80\x9c\xa4', '12']        # incl. C1 controls, where latin-1 and windows-1252 disagree
         data = [[1, 1.5, strs[0], True, datetime.datetime(2020, 2, 29), datetime.datetime(2020, 2, 29, 23, 59, 58), False],
                 [None, None, None, None, None, None, None],
                 [-7, -0.25, strs[1], False, datetime.datetime(1999, 12, 31), datetime.datetime(2001, 1, 1, 0, 0, 0), True],
